@@ -433,6 +433,65 @@ theorem sumOverlap_eval (busy : List BusyRef) (lo hi : Int) (ρ : Env) :
         | cons x xs ih => simp [Term.evalSum, ih, overlapT_eval]
       simpa using this (b :: bs)
 
+theorem sumOverlapIvs_eval (b : BusyRef) (ivs : List (Int × Int)) (ρ : Env) :
+    (sumOrZero (ivs.map (fun iv => overlapT b iv.1 iv.2))).eval ρ = overlapSum (b.sV ρ) (b.eV ρ) ivs := by
+  unfold overlapSum sumOrZero
+  cases ivs with
+  | nil => simp [Term.eval, numT]
+  | cons iv rest =>
+      simp only [List.map_cons, List.isEmpty_cons, Bool.false_eq_true, if_false, Term.eval]
+      have : ∀ l : List (Int × Int), Term.evalSum ρ (l.map (fun iv => overlapT b iv.1 iv.2)) =
+          (l.map (fun iv => overlapLen (b.sV ρ) (b.eV ρ) iv.1 iv.2)).sum := by
+        intro l
+        induction l with
+        | nil => simp [Term.evalSum]
+        | cons x xs ih => simp [Term.evalSum, ih, overlapT_eval]
+      simpa using this (iv :: rest)
+
+theorem interruptedF_sound (b : BusyRef) (t : Task) (ivs : List (Int × Int)) (ρ : Env)
+    (h : InterruptedOK ρ (b.sV ρ) (b.eV ρ) t ivs) : Sat ρ (interruptedF b t ivs) := by
+  have hs : b.s.eval ρ = b.sV ρ := rfl
+  have he : b.e.eval ρ = b.eV ρ := rfl
+  unfold InterruptedOK at h
+  unfold interruptedF
+  cases hk : t.kind with
+  | var minD maxD al =>
+      simp only [hk] at h ⊢
+      obtain ⟨hends, hmin, hmax⟩ := h
+      rw [Sat.append, Sat.append]
+      refine ⟨⟨?_, ?_⟩, ?_⟩
+      · intro a ha
+        obtain ⟨iv, hiv, hab⟩ := List.mem_flatMap.1 ha
+        have := hends iv hiv
+        simp only [List.mem_cons, List.mem_nil_iff, or_false] at hab
+        rcases hab with rfl | rfl
+        · simp only [Fml.eval, Fml.evalAny, Term.eval, numT, hs, or_false]; exact this.1
+        · simp only [Fml.eval, Fml.evalAny, Term.eval, numT, he, or_false]; exact this.2
+      · intro a ha
+        simp only [List.mem_singleton] at ha; subst ha
+        simp only [Fml.eval, Term.eval, sumOverlapIvs_eval, numT, Task.dVar]
+        exact hmin
+      · cases maxD with
+        | none => exact Sat.nil
+        | some m =>
+            intro a ha
+            simp only [List.mem_singleton] at ha; subst ha
+            simp only [Fml.eval, Term.eval, sumOverlapIvs_eval, numT, Task.dVar, hs, he]
+            intro hle
+            exact hmax hle m rfl
+  | fixed d =>
+      simp only [hk] at h ⊢
+      intro a ha
+      obtain ⟨iv, hiv, rfl⟩ := List.mem_map.1 ha
+      simp only [Fml.eval, Fml.evalAny, Term.eval, numT, hs, he, or_false]
+      exact h iv hiv
+  | zero =>
+      simp only [hk] at h ⊢
+      intro a ha
+      obtain ⟨iv, hiv, rfl⟩ := List.mem_map.1 ha
+      simp only [Fml.eval, Fml.evalAny, Term.eval, numT, hs, he, or_false]
+      exact h iv hiv
+
 theorem resMeaningF_sound (c : Nat) (b : CBody) (ρ : Env) (h : Sat ρ (b.raw c)) (f : Fml)
     (hf : b.resMeaningF = some f) : f.eval ρ := by
   have hm := C04_raw_sound c b ρ h
@@ -487,6 +546,20 @@ theorem resMeaningF_sound (c : Nat) (b : CBody) (ρ : Env) (h : Sat ρ (b.raw c)
             List.mem_append_left _ (List.mem_append_left _ (List.mem_cons_of_mem _ (List.mem_cons_self ..))), ?_⟩
           simp only [Fml.eval, Term.eval, numT, hs, he]
           omega
+  | interrupted ws ivs =>
+      simp only [CBody.resMeaningF] at hf
+      split at hf
+      · rename_i hwf
+        simp only [Option.some.injEq] at hf; subst hf
+        simp only [ResMeaning] at hm
+        have hwf' : ∀ iv ∈ ivs, iv.1 < iv.2 := by
+          intro iv hiv; simpa using (List.all_eq_true.1 hwf) iv hiv
+        simp only [Fml.eval]; rw [evalAll_iff]
+        intro a ha
+        obtain ⟨w, hw, haw⟩ := List.mem_flatMap.1 ha
+        obtain ⟨bt, hbt, habt⟩ := List.mem_flatMap.1 haw
+        exact interruptedF_sound bt.1 bt.2 ivs ρ (hm hwf' w hw bt hbt) a habt
+      · simp at hf
   | sameWorkers s1 s2 =>
       simp only [CBody.resMeaningF, Option.some.injEq] at hf; subst hf
       simp only [ResMeaning] at hm
